@@ -231,8 +231,11 @@ def rule_option(ctx: Ctx):
     for rn in raises:
         for b, lab in cfg.guards(rn.id):
             t = cfg.nodes[b].ast.test if cfg.nodes[b].kind == "if" else None
+            left_is_len = isinstance(t, ast.Compare) and ("len" in names_in(t.left) or (isinstance(t.left, ast.Name) and any(
+                isinstance(a, ast.Assign) and len(a.targets) == 1 and isinstance(a.targets[0], ast.Name) and a.targets[0].id == t.left.id and "len" in names_in(a.value)
+                for a in ast.walk(fi.node))))
             if isinstance(t, ast.Compare) and len(t.ops) == 1 and isinstance(t.ops[0], (ast.GtE, ast.Gt, ast.Eq)) \
-                    and "len" in names_in(t.left) and dotted(t.comparators[0]) == f"{fi.self_name}.max_steps" and lab.startswith("T"):
+                    and left_is_len and dotted(t.comparators[0]) == f"{fi.self_name}.max_steps" and lab.startswith("T"):
                 ok = isinstance(t.ops[0], ast.GtE) or isinstance(t.ops[0], ast.Eq)
     ctx.check(ok, "OPT-4", fi, raises[0].ast if raises else fi.node, "raise when len(result) >= self.max_steps",
               "raises at the step limit", "reaching the step limit does not raise (guard missing or weakened)")
